@@ -26,6 +26,11 @@ a_real = double.  Two kinds of code sit around those cores and are covered here:
                            FLOAT build only adds precision and cannot be seen by any of these.
 
 A difference is a VIOLATION with the failing case as replay (key "<function>/config-<real size>" or "<struct>::<member>/cxx-wrapper").
+
+C08 and C09 (src/linalg*.c) use the same config_sweep: include/a/linalg.h carries no C++ member (cxx_wrappers only scans the header
+and says so), cfg_C09.c runs every kernel of linalg.c on integer data against checks/C09.py `expected`, cfg_C08.c runs the PLU /
+LDL^T / LL^T families on matrices constructed from dyadic factors (exact in binary32, verified with fractions), on exactly singular
+ones, on pivots at A_REAL_MIN of each configuration and on full-mantissa matrices (precision cases); see gen_C09 / gen_C08 below.
 """
 import json
 import math
@@ -181,6 +186,22 @@ def _cxx_build(ctx, pid, real):
 def cxx_wrappers(ctx, pid):
     t0 = time.time()
     members, how, callee = header_members(ctx, pid)
+    if not (G / ("cxx_%s.cpp" % pid)).exists():
+        # a property whose headers carry no C++ member at all (C08, C09: include/a/linalg.h is plain C inside extern "C"): there is
+        # nothing to compare and no harness.  The scan above still runs on every run, so a member added to the header later is
+        # an uncovered member (broken tie), not a silent gap.
+        for st, mem in sorted(members):
+            ctx.tie_broken("glue: uncovered member %s::%s (include/a/%s): property %s has no C++ wrapper harness (harness/glue/cxx_%s.cpp) "
+                           "because its headers had no C++ members when the glue runs were built; nothing compares this one with the C API"
+                           % (st, mem, ",".join(sorted(members[(st, mem)])), pid, pid))
+        ctx.cov["glue_cxx_members"] = 0
+        ctx.cov["glue_cxx_members_in_headers"] = len(members)
+        ctx.cov["glue_cxx_member_scan"] = how
+        ctx.cov["glue_cxx_rule"] = ("no C++ member functions in %s (scanned on this run with clang's C++ AST and a regular expression): "
+                                    "no wrapper comparison is needed" % ", ".join("include/a/" + h for h in HEADERS[pid]))
+        ctx.log("glue cxx_wrappers: nothing to do for %s: %s declare%s no C++ member functions (%s)"
+                % (pid, ", ".join("include/a/" + h for h in HEADERS[pid]), "s" if len(HEADERS[pid]) == 1 else "", "; ".join(how)))
+        return
     reals = (8, 16) if ctx.quick else (8, 16, 4)
     n = 150 if ctx.quick else 1500
     bins = {}
@@ -373,6 +394,8 @@ def dec(fr):
     if d & (d - 1):
         return "%d/%d" % (fr.numerator, d)
     k = d.bit_length() - 1
+    if k > 1100:        # beyond binary64 (long double pivots of the C08 threshold cases): no decimal expansion
+        return "%d*2^-%d" % (fr.numerator, k)
     n = fr.numerator * 5 ** k
     s = "%d" % abs(n)
     if k:
@@ -611,8 +634,13 @@ def run_cases(ctx, pid, cases, reals=(4, 8, 16)):
                        dict(replay_of(c, real, vals), damaged_guards=guards))
                 continue
             if len(vals) != len(c.exp(real)):
-                report("%s/config-%d" % (c.fn, real), "%s built with a_real = %s: %d output values, %d expected"
-                       % (c.fn, REALNAME[real], len(vals), len(c.exp(real))), replay_of(c, real, vals))
+                # (a return code that differs changes what the driver prints after it: name the first output that differs)
+                first = next((i for i, ((fn_, m_, v_), g_) in enumerate(zip(c.exp(real), vals)) if m_ == "=" and g_ != v_), None)
+                report("%s/config-%d" % (c.fn, real), "%s built with a_real = %s: %d output values, %d expected%s"
+                       % (c.fn, REALNAME[real], len(vals), len(c.exp(real)),
+                          "" if first is None else "; the first output that differs is output %d (%s): %s, the documented equations give exactly %s; inputs %s"
+                          % (first, c.exp(real)[first][0], dec(vals[first]) if isinstance(vals[first], Fraction) else vals[first],
+                             dec(c.exp(real)[first][2]), c.desc)), replay_of(c, real, vals, first))
                 continue
             for i, ((fn, mode, v), g) in enumerate(zip(c.exp(real), vals)):
                 if mode == "p" and not close_p(real, g, v):
@@ -1923,3 +1951,662 @@ def gen_eps_cases(rng, n):
 
 
 GENERATORS = {"C12": gen_C12, "C13": gen_C13, "C14": gen_C14, "C15": gen_C15, "C16": gen_C16}
+
+
+# =====================================================================================================================
+# C09 / C08: the linear-algebra kernels and factorisations (src/linalg*.c) in the float and long double configurations
+# =====================================================================================================================
+HEADERS.update({"C08": ["linalg.h"], "C09": ["linalg.h"]})
+SRCS.update({"C08": ["linalg_plu.c", "linalg_ldl.c", "linalg_llt.c", "linalg.c", "math.c", "a.c"],
+             "C09": ["linalg.c", "math.c", "a.c"]})
+
+TILE_EDGE = (15, 16, 17, 31, 32, 33)
+
+
+# ------------------------------------------------------------------------------------------------------------ C09
+def gen_C09(rng, scale):
+    """Every kernel of src/linalg.c on integer data.  The expectation is checks/C09.py `expected` - the property's own statement of
+    each routine on exact integers - imported, not copied.  Contents are small enough that every product and every partial sum of
+    a product kernel, in any order, is an integer below 2^24 (checked here), so all three builds must print exactly these integers."""
+    import importlib
+    C9 = importlib.import_module("checks.C09")
+    cases, nshape = [], {}
+
+    def add(op, d, kind, tag):
+        c = C9.make_case(rng, op, d, kind, tag)
+        if op in C9.OPS3:
+            # sum of |x||y| bounds every partial sum of every cell whatever the order of accumulation
+            big = max(C9.expected(op, c.d, [abs(v) for v in c.X], [abs(v) for v in c.Y], c.O) or [0])
+            if big >= 1 << 24:
+                c = C9.make_case(rng, op, d, "small", tag)
+        assert all(abs(v) < 1 << 24 for v in c.X + c.Y + c.O)
+        exp = E("a_real_" + op, C9.expected(op, c.d, c.X, c.Y, c.O)) + E("a_real_%s (input arrays unchanged)" % op, [1])
+        cases.append(Case(c.line(), "a_real_" + op, exp,
+                          {"routine": "a_real_" + op, "dimensions in parameter order": list(c.dims_used()), "X": c.X, "Y": c.Y,
+                           "initial contents of the result array": c.O, "class": tag}))
+        nshape[tag] = nshape.get(tag, 0) + 1
+
+    hi = 5 if scale == 1 else 7
+    reps = 1 if scale == 1 else 3
+    for rep in range(reps):
+        for op in C9.OPS1:
+            for n in range(0, hi + 1):
+                for kind in ("small", "canon"):
+                    add(op, (n,), kind, "box")
+            for n in TILE_EDGE:
+                add(op, (n,), "canon" if rep == 0 else "small", "tile-edge")
+        for op in C9.OPS2:
+            for m in range(0, hi + 1):
+                for n in range(0, hi + 1):
+                    add(op, (m, n), "small", "box")
+                    if rep == 0:
+                        add(op, (m, n), "canon", "box")
+            for big in TILE_EDGE:
+                for small in (1, 3):
+                    add(op, (small, big), "canon" if rep == 0 else "small", "tile-edge")
+                    add(op, (big, small), "canon" if rep == 0 else "small", "tile-edge")
+        for op in C9.OPS3:
+            for d1 in range(0, hi + 1):
+                for d2 in range(0, hi + 1):
+                    for d3 in range(0, hi + 1):
+                        add(op, (d1, d2, d3), "small" if (d1 + d2 + d3 + rep) % 3 else "canon", "box")
+            for big in TILE_EDGE:
+                for s1, s2 in ((1, 1), (3, 3), (1, 3), (3, 1)):
+                    for d in ((big, s1, s2), (s1, big, s2), (s1, s2, big)):
+                        add(op, d, "small" if (big + s1 + rep) % 2 else "canon", "tile-edge")
+    return cases, ("C09: all %d kernels of src/linalg.c (%s); every shape with dimensions 0..%d and the tile-edge shapes (one dimension 1 or 3 - "
+                   "for the square routines the order itself - the other 15..17 and 31..33): %s; integer contents (-9..9 or distinct "
+                   "positive values), stale values in the result array, each array a block of exactly its size with guard bytes "
+                   "around it in one allocation per case; expectation = checks/C09.py expected() (the exact integer definition the "
+                   "main check uses), inputs must be unchanged" % (len(C9.ALL_OPS), " ".join(C9.ALL_OPS), hi, nshape))
+
+
+GENERATORS.update({"C09": gen_C09})
+
+
+# ------------------------------------------------------------------------------------------------------------ C08
+# The documented algorithms, generic in the number class: X (exact case: every intermediate must fit binary32, else Inexact) or
+# S (precision case: exact value, size of the terms, depth).  They QUALIFY a case (X) or give the allowance of a precision
+# case (S); the expectations of the exact cases come from the constructed factors and from fr_solve / fr_det below
+# (exact rational Gaussian elimination on the ORIGINAL matrix), not from these.
+def _nabs(x):
+    return S(abs(x.v), x.m, x.d) if isinstance(x, S) else abs(x)
+
+
+def _nzero(x):
+    """the pivot test `|x| < A_REAL_MIN` of an exact / precision case: an exact zero fails, anything else is far above the threshold"""
+    return x.cmp(0) == 0 if isinstance(x, S) else x == 0
+
+
+def _nsqrt(x):
+    return ssqrt(x) if isinstance(x, S) else xsqrt(x)
+
+
+def la_plu(N, n, A0):
+    """a_real_plu: for every column the FIRST entry of largest magnitude on or below the diagonal is the pivot (strict >), the
+    rows are exchanged (permutation entry and sign with them), multipliers stored below the diagonal.
+    Returns (rc, p, sign, storage, a tie between candidates of a pivot search was seen)."""
+    A = [N(v) for v in A0]
+    p, sign, tie = list(range(n)), 1, False
+    for i in range(n):
+        mi, mx = i, A[n * i + i]
+        ax = _nabs(mx)
+        for r in range(i + 1, n):
+            v = A[n * r + i]
+            av = _nabs(v)
+            if av > ax:
+                ax, mx, mi = av, v, r
+            elif N is X and av == ax and not ax == 0:
+                tie = True
+        if _nzero(ax):
+            return 1, p, sign, A, tie
+        if mi != i:
+            p[i], p[mi] = p[mi], p[i]
+            sign = -sign
+            for c in range(n):
+                A[n * i + c], A[n * mi + c] = A[n * mi + c], A[n * i + c]
+        for r in range(i + 1, n):
+            x = A[n * r + i] / mx
+            for c in range(i + 1, n):
+                A[n * r + c] = A[n * r + c] - A[n * i + c] * x
+            A[n * r + i] = x
+    return 0, p, sign, A, tie
+
+
+def la_ldl(N, n, A0):
+    A = [N(v) for v in A0]
+    for c in range(n):
+        for i in range(c):
+            A[n * c + c] = A[n * c + c] - A[n * c + i] * A[n * c + i] * A[n * i + i]
+        if _nzero(A[n * c + c]):
+            return 1, A
+        for r in range(c + 1, n):
+            for i in range(c):
+                A[n * r + c] = A[n * r + c] - A[n * r + i] * A[n * c + i] * A[n * i + i]
+            A[n * r + c] = A[n * r + c] / A[n * c + c]
+    return 0, A
+
+
+def la_llt(N, n, A0):
+    A = [N(v) for v in A0]
+    for r in range(n):
+        for c in range(r):
+            for i in range(c):
+                A[n * r + c] = A[n * r + c] - A[n * r + i] * A[n * c + i]
+            A[n * r + c] = A[n * r + c] / A[n * c + c]
+        for i in range(r):
+            A[n * r + r] = A[n * r + r] - A[n * r + i] * A[n * r + i]
+        d = A[n * r + r]
+        if (d.cmp(0) <= 0) if isinstance(d, S) else d <= 0:
+            return 1, A
+        A[n * r + r] = _nsqrt(d)
+    return 0, A
+
+
+def la_lower_unit(n, L, y, lo=0):
+    """a_real_plu_lower, a_real_ldl_lower (lo = 0) and the forward sweep inside a_real_ldl_inv (rows and columns from lo)"""
+    for r in range(lo, n):
+        for c in range(lo, r):
+            y[r] = y[r] - L[n * r + c] * y[c]
+
+
+def la_plu_upper(n, U, x):
+    for r in reversed(range(n)):
+        for c in range(r + 1, n):
+            x[r] = x[r] - U[n * r + c] * x[c]
+        x[r] = x[r] / U[n * r + r]
+
+
+def la_ldl_upper(n, L, x):
+    for c in reversed(range(n)):
+        x[c] = x[c] / L[n * c + c]
+        for r in range(c + 1, n):
+            x[c] = x[c] - L[n * r + c] * x[r]
+
+
+def la_llt_lower(n, L, y, lo=0):
+    for r in range(lo, n):
+        for c in range(lo, r):
+            y[r] = y[r] - L[n * r + c] * y[c]
+        y[r] = y[r] / L[n * r + r]
+
+
+def la_llt_upper(n, L, x):
+    for c in reversed(range(n)):
+        for r in range(c + 1, n):
+            x[c] = x[c] - L[n * r + c] * x[r]
+        x[c] = x[c] / L[n * c + c]
+
+
+def la_derived(N, fam, n, F, p, sign, b0):
+    """Every derived routine of one family on the factor storage F (list of N), in the driver's order.  Returns a dict
+    routine -> list of N, or routine -> the exception (Inexact / Unstable) that disqualifies it on this matrix."""
+    out = {}
+
+    def attempt(names, fn):
+        try:
+            res = fn()
+        except (Inexact, Unstable) as e:
+            res = [e] * len(names)
+        for k, v in zip(names, res):
+            out[k] = v
+    b = [N(v) for v in b0]
+    if fam == "plu":
+        def chain():
+            v = [b[p[i]] for i in range(n)]
+            ap = list(v)
+            la_lower_unit(n, F, v)
+            lo = list(v)
+            la_plu_upper(n, F, v)
+            return ap, lo, list(v), list(v)
+
+        def inv():
+            I = [None] * (n * n)
+            col = []
+            for c in range(n):
+                col = [N(1 if p[r] == c else 0) for r in range(n)]
+                la_lower_unit(n, F, col)
+                la_plu_upper(n, F, col)
+                for r in range(n):
+                    I[n * r + c] = col[r]
+            return col, I
+
+        def det():
+            r = N(sign)
+            for i in range(n):
+                r = r * F[n * i + i]
+            return [[r]]
+        attempt(["apply", "lower", "upper", "solve"], chain)
+    else:
+        lower, upper = (la_lower_unit, la_ldl_upper) if fam == "ldl" else (la_llt_lower, la_llt_upper)
+
+        def chain():
+            v = list(b)
+            lower(n, F, v)
+            lo = list(v)
+            upper(n, F, v)
+            return lo, list(v), list(v)
+
+        def inv():
+            I = [None] * (n * n)
+            col = []
+            for i in range(n):
+                col = [N(1 if r == i else 0) for r in range(n)]
+                lower(n, F, col, i)
+                upper(n, F, col)
+                for r in range(n):
+                    I[n * r + i] = col[r]
+            return col, I
+
+        def det():
+            r = N(1)
+            for i in range(n):
+                r = r * F[n * i + i]
+            return [[r * r if fam == "llt" else r]]
+        attempt(["lower", "upper", "solve"], chain)
+    attempt(["scratch", "inv"], inv)
+    attempt(["det"], det)
+    return out
+
+
+def fr_solve(n, A, B, k):
+    """X with A X = B (A n x n, B n x k, row major lists of Fraction), exact Gaussian elimination; None when A is singular"""
+    M = [[Fraction(A[n * r + c]) for c in range(n)] + [Fraction(B[k * r + j]) for j in range(k)] for r in range(n)]
+    for i in range(n):
+        piv = next((r for r in range(i, n) if M[r][i] != 0), None)
+        if piv is None:
+            return None
+        M[i], M[piv] = M[piv], M[i]
+        M[i] = [v / M[i][i] for v in M[i]]
+        for r in range(n):
+            if r != i and M[r][i] != 0:
+                f = M[r][i]
+                M[r] = [a - f * b for a, b in zip(M[r], M[i])]
+    return [M[r][n + j] for r in range(n) for j in range(k)]
+
+
+def fr_det(n, A):
+    M = [[Fraction(A[n * r + c]) for c in range(n)] for r in range(n)]
+    det = Fraction(1)
+    for i in range(n):
+        piv = next((r for r in range(i, n) if M[r][i] != 0), None)
+        if piv is None:
+            return Fraction(0)
+        if piv != i:
+            M[i], M[piv] = M[piv], M[i]
+            det = -det
+        det *= M[i][i]
+        for r in range(i + 1, n):
+            f = M[r][i] / M[i][i]
+            if f:
+                M[r] = [a - f * b for a, b in zip(M[r], M[i])]
+    return det
+
+
+def _perm_parity(p):
+    s, seen = 1, [False] * len(p)
+    for i in range(len(p)):
+        j, ln = i, 0
+        while not seen[j]:
+            seen[j] = True
+            j = p[j]
+            ln += 1
+        if ln and ln % 2 == 0:
+            s = -s
+    return s
+
+
+def _mm(n, A, B):
+    return [sum(A[n * r + k] * B[n * k + c] for k in range(n)) for r in range(n) for c in range(n)]
+
+
+def _tr(n, A):
+    return [A[n * c + r] for r in range(n) for c in range(n)]
+
+
+def _eye(n):
+    return [Fraction(1 if r == c else 0) for r in range(n) for c in range(n)]
+
+
+def _lnref(diag, scale):
+    """reference of a log-determinant: exactly 0 when every |d| is 1, else (binary64 value, size of the terms)"""
+    if all(abs(d) == 1 for d in diag):
+        return None
+    logs = [math.log(abs(float(d))) for d in diag]
+    return (scale * math.fsum(logs), scale * math.fsum(abs(v) for v in logs))
+
+
+FAM_FN = {"plu": "a_real_plu", "ldl": "a_real_ldl", "llt": "a_real_llt"}
+POW2 = [Fraction(1), Fraction(-1), Fraction(2), Fraction(-2), Fraction(4), Fraction(1, 2), Fraction(-1, 2), Fraction(1, 4)]
+
+
+def c08_case(fam, n, A, b, tag, must_be, precision=False, selfcheck=None):
+    """One case of a family on the matrix A (Fractions, row major) and right-hand side b.
+
+    exact cases (precision False): the matrix comes with what its factorisation must be - must_be = None (failure expected:
+    the matrix has an exactly vanishing / non-positive pivot) or (p, sign, storage) from the construction A = P^T L U,
+    A = L D L^T, A = L L^T.  The documented algorithm is run on X numbers: Inexact anywhere in the factorisation drops the
+    case (returns None), Inexact in a derived routine leaves that routine out (rmask).  Expected values of the derived
+    routines: exact rational solves with the ORIGINAL matrix and with the constructed triangles.
+    precision cases: everything from the algorithm on S numbers (value of the real-number algorithm, size of the terms, depth)."""
+    fn = FAM_FN[fam]
+    N = S if precision else X
+    try:
+        if fam == "plu":
+            rc, p, sign, F, tie = la_plu(N, n, A)
+        else:
+            (rc, F), p, sign, tie = (la_ldl if fam == "ldl" else la_llt)(N, n, A), list(range(n)), 1, False
+    except (Inexact, Unstable):
+        return None
+    desc = {"routine family": fn, "order": n, "A (row major)": [dec(v) for v in A], "b": [dec(v) for v in b], "class": tag}
+    head = "%s %d" % (fam, n)
+    nums = " ".join(hexf(v) for v in list(A) + list(b))
+    if not precision:
+        if must_be is None:
+            if rc != 1:
+                raise AssertionError("glue C08 generator: %s accepted by the reference algorithm: %s" % (tag, desc))
+            desc["expected"] = "failure (return value 1): a pivot of this matrix vanishes / is not positive in exact arithmetic"
+            return Case("%s 15 %s" % (head, nums), fn, E(fn, [1]), desc)
+        ep, esign, eF = must_be
+        if rc != 0 or tie or [v.v for v in F] != list(eF) or (fam == "plu" and (p != list(ep) or sign != esign)):
+            if tie:
+                return None
+            raise AssertionError("glue C08 generator: the reference algorithm does not reproduce the constructed factors: %s" % desc)
+    elif rc != 0:
+        return None
+    mode = (lambda f, vals: P(f, vals)) if precision else (lambda f, vals: E(f, [v.v if isinstance(v, X) else v for v in vals]))
+    sim = la_derived(N, fam, n, F, p, sign, b)
+    ok = lambda k: not isinstance(sim[k], Exception) and not any(isinstance(v, Exception) for v in sim[k])
+    rmask = 8 | (1 if ok("solve") else 0) | (2 if ok("inv") else 0) | (4 if ok("det") else 0)
+    Fv = [v.v for v in F]
+    exp = E(fn, [0])
+    if fam == "plu":
+        exp += E(fn, [sign] + p)
+    exp += mode(fn, F)
+    one = Fraction(1)
+    Lunit = [Fv[n * r + c] if c < r else Fraction(1 if r == c else 0) for r in range(n) for c in range(n)]
+    Lfull = [Fv[n * r + c] if c <= r else Fraction(0) for r in range(n) for c in range(n)]
+    Uppr = [Fv[n * r + c] if c >= r else Fraction(0) for r in range(n) for c in range(n)]
+    diag = [Fv[n * i + i] for i in range(n)]
+    sub = lambda M: [F[n * r + c] if M[n * r + c] == Fv[n * r + c] and M[n * r + c] != 0 and (r != c or M is not Lunit) else M[n * r + c]
+                     for r in range(n) for c in range(n)]      # read-outs of a precision case keep the S of the cell they copy
+    As = [A[n * max(r, c) + min(r, c)] for r in range(n) for c in range(n)] if fam != "plu" else list(A)      # what the routine reads
+    if fam == "plu":
+        Pm = [Fraction(1 if c == p[r] else 0) for r in range(n) for c in range(n)]
+        exp += E(fn + "_P", Pm) + E(fn + "_P_", _tr(n, Pm)) + mode(fn + "_L", sub(Lunit)) + mode(fn + "_U", sub(Uppr))
+    elif fam == "ldl":
+        exp += mode(fn + "_L", sub(Lunit)) + mode(fn + "_D", [F[n * i + i] for i in range(n)])
+    else:
+        exp += mode(fn + "_L", sub(Lfull))
+    if not precision:
+        # independent expectations (exact rational), compared with the qualifying run where that ran
+        if fam == "plu":
+            Pb = [b[p[i]] for i in range(n)]
+            y = fr_solve(n, Lunit, Pb, 1)
+            x = fr_solve(n, As, b, 1)
+            ind = {"apply": Pb, "lower": y, "upper": x, "solve": x}
+            det = esign
+        else:
+            y = fr_solve(n, Lunit if fam == "ldl" else Lfull, b, 1)
+            x = fr_solve(n, As, b, 1)
+            ind = {"lower": y, "upper": x, "solve": x}
+            det = 1
+        for d in diag:
+            det = det * d * (d if fam == "llt" else 1)
+        inv = fr_solve(n, As, _eye(n), n)
+        ind["inv"], ind["scratch"], ind["det"] = inv, [inv[n * r + n - 1] for r in range(n)], [det]
+        if fr_det(n, As) != det:
+            raise AssertionError("glue C08 generator: determinant of the constructed factors differs from the determinant of A: %s" % desc)
+        for k, v in ind.items():
+            if ok(k) and [q.v for q in sim[k]] != list(v):
+                raise AssertionError("glue C08 generator: %s of the reference algorithm differs from the exact rational solution: %s" % (k, desc))
+        val = lambda k: ind[k]
+    else:
+        val = lambda k: sim[k]
+    if rmask & 1:
+        for k in (["apply"] if fam == "plu" else []) + ["lower", "upper", "solve"]:
+            exp += mode("%s_%s" % (fn, k), val(k))
+    if rmask & 2:
+        if fam == "plu":
+            exp += mode(fn + "_inv", val("scratch"))
+        else:
+            exp += [(fn + "_inv", "?", None)] * n          # contents of the scratch vector: unspecified for ldl / llt
+        exp += mode(fn + "_inv", val("inv")) + mode(fn + "_inv_", val("inv"))
+    if rmask & 4:
+        exp += mode(fn + "_det", val("det"))
+    ln = _lnref(diag, 2 if fam == "llt" else 1)
+    exp += E(fn + "_lndet", [0]) if ln is None else A_(fn + "_lndet", [ln])
+    if fam != "llt":
+        dsg = sign
+        for d in diag:
+            dsg = -dsg if d < 0 else dsg
+        exp += E(fn + "_sgndet", [dsg])
+    exp += E(fn + " (factor storage unchanged by the derived routines)", [1])
+    if fam == "plu":
+        exp += E(fn + "_apply (b unchanged)", [1])
+    desc["derived routines run"] = ("all" if rmask == 15 else "read-outs, lndet, sgndet" + (", solve chain" if rmask & 1 else "") +
+                                    (", inverses" if rmask & 2 else "") + (", det" if rmask & 4 else "") +
+                                    " (the others would not be exact in binary32 on this matrix)")
+    c = Case("%s %d %s" % (head, rmask, nums), fn, exp, desc)
+    if selfcheck is not None and not precision and rmask == 15:
+        selfcheck(fam, n, A, b, p, sign, Fv, Pm if fam == "plu" else None, ind, desc)
+    return c
+
+
+A_ = A      # the tolerance-mode constructor (the name A is a matrix inside c08_case)
+
+
+def _c08_selfcheck_factory(stats):
+    """The expectations of the exact cases, written in the line format of harness/C08/drv.c, must satisfy the property's own
+    exact-rational oracle harness/C08/oracle.py (shape of the factors, reconstruction, residuals, determinant family)."""
+    import sys
+    hd = str(vlib.VERIF / "harness" / "C08")
+    if hd not in sys.path:
+        sys.path.insert(0, hd)
+    import c08lib
+    import oracle
+
+    def bits(vals):
+        return " ".join(c08lib.hx(c08lib.d2b(float(v))) for v in vals)
+
+    def check(fam, n, A, b, p, sign, Fv, Pm, ind, desc):
+        mask = {"plu": 1, "ldl": 2, "llt": 4}[fam]
+        case = c08lib.Case.from_floats(mask, n, [float(v) for v in A], [float(v) for v in b], "glue")
+        Lunit = [Fv[n * r + c] if c < r else Fraction(1 if r == c else 0) for r in range(n) for c in range(n)]
+        if fam == "plu":
+            lines = ["100 0 %d %s %s" % (sign, " ".join(str(i) for i in p), bits(Fv)), "101 " + bits(Pm), "102 " + bits(_tr(n, Pm)),
+                     "103 " + bits(Lunit), "104 " + bits([Fv[n * r + c] if c >= r else 0 for r in range(n) for c in range(n)]),
+                     "105 " + bits(ind["apply"]), "106 " + bits(ind["lower"]), "107 " + bits(ind["upper"]), "108 " + bits(ind["solve"]),
+                     "109 " + bits(list(ind["scratch"]) + list(ind["inv"])), "110 " + bits(ind["inv"]), "111 " + bits(ind["det"]),
+                     "113 %d" % (1 if ind["det"][0] > 0 else -1)]
+        elif fam == "ldl":
+            lines = ["200 0 " + bits(Fv), "201 " + bits(Lunit), "202 " + bits([Fv[n * i + i] for i in range(n)]),
+                     "203 " + bits(ind["lower"]), "204 " + bits(ind["upper"]), "205 " + bits(ind["solve"]),
+                     "206 " + bits(list(ind["scratch"]) + list(ind["inv"])), "207 " + bits(ind["inv"]), "208 " + bits(ind["det"]),
+                     "210 %d" % (1 if ind["det"][0] > 0 else -1)]
+        else:
+            lines = ["300 0 " + bits(Fv), "301 " + bits([Fv[n * r + c] if c <= r else 0 for r in range(n) for c in range(n)]),
+                     "303 " + bits(ind["lower"]), "304 " + bits(ind["upper"]), "305 " + bits(ind["solve"]),
+                     "306 " + bits(list(ind["scratch"]) + list(ind["inv"])), "307 " + bits(ind["inv"]), "308 " + bits(ind["det"])]
+        lines = [" ".join(l.split()) for l in lines]
+        fails, _ = oracle.check(case, lines)
+        stats["checked"] = stats.get("checked", 0) + 1
+        if fails:
+            raise AssertionError("glue C08 generator: harness/C08/oracle.py rejects the expectation of an exact case: %s: %s" % (fails[:3], desc))
+    return check
+
+
+def gen_C08(rng, scale):
+    cases, stats, dropped = [], {}, {}
+    selfcheck = _c08_selfcheck_factory(stats)
+    half = lambda lo, hi, q: Fraction(rng.randint(lo * q, hi * q), q)
+
+    def keep(c, tag):
+        if c is None:
+            dropped[tag] = dropped.get(tag, 0) + 1
+        else:
+            cases.append(c)
+            stats[tag] = stats.get(tag, 0) + 1
+        return c is not None
+
+    def lower_unit(n, choices):
+        return [rng.choice(choices) if c < r else Fraction(1 if r == c else 0) for r in range(n) for c in range(n)]
+
+    def diagm(n, d):
+        return [d[r] if r == c else Fraction(0) for r in range(n) for c in range(n)]
+
+    MULT = [Fraction(0), Fraction(1, 2), Fraction(-1, 2), Fraction(1, 4), Fraction(-1, 4), Fraction(3, 4), Fraction(-3, 4)]
+    LSET = [Fraction(0), Fraction(1, 2), Fraction(-1, 2), Fraction(1), Fraction(-1), Fraction(3, 2), Fraction(-2), Fraction(2), Fraction(1, 4)]
+    INTS = [Fraction(v) for v in (1, -1, 2, 3, -3, 5, -5, 6, 7, -7)]
+    per = 14 * scale
+
+    # ---- exact, constructed from their factors
+    for n in range(0, 7):
+        k = 0
+        while k < (2 if n == 0 else per):
+            pow2 = k % 2 == 0          # power-of-two pivots: the inverse is dyadic too
+            # A = P^T L U: |multipliers| < 1 strictly, so every pivot search has exactly one candidate of largest magnitude
+            L = lower_unit(n, MULT)
+            U = [(rng.choice(POW2 if pow2 else INTS) if r == c else half(-4, 4, rng.choice([1, 1, 2]))) if c >= r else Fraction(0)
+                 for r in range(n) for c in range(n)]
+            LU = _mm(n, L, U)
+            p = list(range(n))
+            rng.shuffle(p)
+            A = [None] * (n * n)
+            for i in range(n):
+                A[n * p[i]:n * p[i] + n] = LU[n * i:n * i + n]
+            x0 = [Fraction(rng.randint(-4, 4)) for _ in range(n)]
+            b = [sum(A[n * r + c] * x0[c] for c in range(n)) for r in range(n)]
+            F = [L[n * r + c] if c < r else U[n * r + c] for r in range(n) for c in range(n)]
+            k += keep(c08_case("plu", n, A, b, "plu: A = P^T L U from dyadic factors", (p, _perm_parity(p), F), selfcheck=selfcheck), "plu-exact")
+        k = 0
+        while k < (2 if n == 0 else per):
+            pow2 = k % 2 == 0
+            L = lower_unit(n, LSET)
+            D = [rng.choice(POW2 if pow2 else INTS) for _ in range(n)]
+            A = _mm(n, _mm(n, L, diagm(n, D)), _tr(n, L))
+            x0 = [Fraction(rng.randint(-4, 4)) for _ in range(n)]
+            b = [sum(A[n * r + c] * x0[c] for c in range(n)) for r in range(n)]
+            F = [L[n * r + c] if c < r else (D[r] if r == c else A[n * r + c]) for r in range(n) for c in range(n)]
+            k += keep(c08_case("ldl", n, A, b, "ldl: A = L D L^T from dyadic factors", (None, 1, F), selfcheck=selfcheck), "ldl-exact")
+        k = 0
+        while k < (2 if n == 0 else per):
+            pow2 = k % 2 == 0
+            L = [(rng.choice([Fraction(1), Fraction(2), Fraction(4), Fraction(1, 2)] if pow2 else [Fraction(1), Fraction(3), Fraction(5), Fraction(3, 2), Fraction(6)])
+                  if r == c else rng.choice(LSET)) if c <= r else Fraction(0) for r in range(n) for c in range(n)]
+            A = _mm(n, L, _tr(n, L))
+            x0 = [Fraction(rng.randint(-4, 4)) for _ in range(n)]
+            b = [sum(A[n * r + c] * x0[c] for c in range(n)) for r in range(n)]
+            F = [L[n * r + c] if c <= r else A[n * r + c] for r in range(n) for c in range(n)]
+            k += keep(c08_case("llt", n, A, b, "llt: A = L L^T from a dyadic factor", (None, 1, F), selfcheck=selfcheck), "llt-exact")
+
+    # ---- failure: an exactly vanishing pivot (zero column, zero row, duplicated / power-of-two scaled rows, A = L U with a zero on the
+    #      diagonal of U), a zero LDL^T pivot, a non-positive Cholesky pivot; all arithmetic up to the failing step exact
+    for n in range(1, 7):
+        k = tries = 0
+        while k < 4 * scale and tries < 400:
+            tries += 1
+            kind = ("zero column", "zero row", "duplicated row", "row scaled by a power of two", "rank-deficient product")[(k + tries) % 5 if n > 1 else tries % 2]
+            # entries +-2^j and 0: the multipliers of the first steps are dyadic; a matrix on which a later step is not is dropped
+            A = [rng.choice([Fraction(0), Fraction(1), Fraction(-1), Fraction(2), Fraction(-2), Fraction(4), Fraction(1, 2)]) for _ in range(n * n)]
+            if kind == "zero column":
+                j = rng.randrange(n)
+                for r in range(n):
+                    A[n * r + j] = Fraction(0)
+            elif kind == "zero row":
+                j = rng.randrange(n)
+                A[n * j:n * j + n] = [Fraction(0)] * n
+            elif kind in ("duplicated row", "row scaled by a power of two"):
+                i, j = rng.sample(range(n), 2)
+                f = Fraction(1) if kind == "duplicated row" else rng.choice([Fraction(2), Fraction(-1), Fraction(1, 2), Fraction(-4)])
+                A[n * j:n * j + n] = [f * v for v in A[n * i:n * i + n]]
+            else:
+                L = lower_unit(n, MULT)
+                U = [(Fraction(rng.choice([1, -2, 3])) if r == c else Fraction(rng.randint(-3, 3))) if c >= r else Fraction(0) for r in range(n) for c in range(n)]
+                j = rng.randrange(n)
+                U[n * j + j] = Fraction(0)
+                A = _mm(n, L, U)
+            if fr_det(n, A) != 0:
+                raise AssertionError("glue C08 generator: singular class %s is not singular" % kind)
+            k += keep(c08_case("plu", n, A, [Fraction(rng.randint(-3, 3)) for _ in range(n)], "plu failure: " + kind, None), "plu-singular")
+        for k in range(3 * scale):
+            L = lower_unit(n, [Fraction(v) for v in (-2, -1, 0, 1, 2)])
+            D = [Fraction(rng.choice((-3, -2, -1, 1, 2, 4))) for _ in range(n)]
+            D[rng.randrange(n)] = Fraction(0)
+            A = _mm(n, _mm(n, L, diagm(n, D)), _tr(n, L))
+            keep(c08_case("ldl", n, A, [Fraction(rng.randint(-3, 3)) for _ in range(n)], "ldl failure: A = L D L^T with a zero in D", None), "ldl-singular")
+        for k in range(3 * scale):
+            L = lower_unit(n, [Fraction(v) for v in (-2, -1, 0, 1, 2)])
+            D = [Fraction(rng.choice((1, 4, 16))) for _ in range(n)]
+            D[rng.randrange(n)] = Fraction(rng.choice((0, -1, -4, -3)))
+            A = _mm(n, _mm(n, L, diagm(n, D)), _tr(n, L))
+            keep(c08_case("llt", n, A, [Fraction(rng.randint(-3, 3)) for _ in range(n)],
+                          "llt failure: A = L D L^T, squares in D before a non-positive entry", None), "llt-not-positive")
+
+    # ---- the failure threshold |pivot| < A_REAL_MIN of each configuration: diag(1, t), diag(t, 1), (t) with t = 2^-e around
+    #      FLT_MIN = 2^-126, DBL_MIN = 2^-1022, LDBL_MIN = 2^-16382.  A configuration reads t as the nearest value of its a_real
+    #      (t itself down to its smallest subnormal 2^-149 / 2^-1074 / 2^-16445, else 0): below A_REAL_MIN the factorisation must
+    #      fail, from A_REAL_MIN on it must succeed with the factors diag(1, t) (square root 2^-(e/2) for llt, e even)
+    MINEXP = {4: (126, 149), 8: (1022, 1074), 16: (16382, 16445)}
+    for e in (100, 125, 126, 127, 128, 140, 149, 150, 1000, 1021, 1022, 1023, 1024, 1060, 1074, 1075, 5000, 16381, 16382, 16383,
+              16384, 16400, 16445, 16446):
+        t = Fraction(1, 1 << e)
+        for fam in ("plu", "ldl", "llt"):
+            if fam == "llt" and e % 2:
+                continue
+            for shape in (0, 1, 2):
+                n = 1 if shape == 2 else 2
+                toks = {0: ["1", "0", "0", "T"], 1: ["T", "0", "0", "1"], 2: ["T"]}[shape]
+                line = "%s %d 0 %s %s" % (fam, n, " ".join("0x1p-%d" % e if v == "T" else v for v in toks), " ".join(["0"] * n))
+                exp = {}
+                for real, (emin, esub) in MINEXP.items():
+                    tv = t if e <= esub else Fraction(0)
+                    if e > emin:
+                        exp[real] = E(FAM_FN[fam], [1])
+                    else:
+                        d = Fraction(1, 1 << (e // 2)) if fam == "llt" else tv
+                        st = {0: [1, 0, 0, d], 1: [d, 0, 0, 1], 2: [d]}[shape]
+                        exp[real] = E(FAM_FN[fam], [0] + ([1] + list(range(n)) if fam == "plu" else []) + st + [1] + ([1] if fam == "plu" else []))
+                cases.append(Case(line, FAM_FN[fam], exp,
+                                  {"routine family": FAM_FN[fam], "order": n, "A (row major)": ["2^-%d" % e if v == "T" else v for v in toks],
+                                   "class": "pivot threshold",
+                                   "expected": "failure where 2^-%d < A_REAL_MIN of the configuration (float 2^-126, double 2^-1022, long double "
+                                               "2^-16382), else success with the pivot as it is" % e}))
+                stats["threshold"] = stats.get("threshold", 0) + 1
+
+    # ---- precision: full 24-bit mantissas, strongly diagonally dominant (rows permuted for plu), orders 1..4
+    for k in range(30 * scale):
+        n = 1 + k % 4
+        for fam in ("plu", "plu-triangular", "ldl", "llt"):
+            Mx = [f24(rng, 2, 8, sign=(fam != "llt")) if r == c else f24(rng, 0.05, 1) for r in range(n) for c in range(n)]
+            if fam in ("ldl", "llt"):
+                Mx = [Mx[n * max(r, c) + min(r, c)] for r in range(n) for c in range(n)]
+            if fam == "plu-triangular":
+                Mx = [Mx[n * r + c] if c >= r else Fraction(0) for r in range(n) for c in range(n)]
+            A = list(Mx)
+            if fam == "plu":
+                p = list(range(n))
+                rng.shuffle(p)
+                for i in range(n):
+                    A[n * p[i]:n * p[i] + n] = Mx[n * i:n * i + n]
+            b = [f24(rng, 0.1, 4) for _ in range(n)]
+            keep(c08_case(fam.split("-")[0], n, A, b, "precision: full 24-bit mantissas, diagonally dominant" +
+                          (", upper triangular (the factor storage is A itself)" if fam == "plu-triangular" else ""), None, precision=True),
+                 fam.split("-")[0] + "-precision")
+    return cases, ("C08: a_real_plu / a_real_ldl / a_real_llt with every derived routine (P, P_, L, U / L, D / L read-outs, apply, lower, upper, "
+                   "solve, inv with its scratch vector, inv_ - which runs the strided lower_/upper_ -, det, lndet, sgndet), orders 0..6; "
+                   "exact cases are constructed from their factors (A = P^T L U with |multipliers| < 1 so that every pivot search has "
+                   "one answer, A = L D L^T, A = L L^T; power-of-two or small-integer pivots; b = A x for an integer x) and expected to "
+                   "return exactly those factors, the exact rational solutions / inverse of the original matrix and the exact "
+                   "determinant; the documented algorithm is run here on exact fractions and a case (or one derived routine of it) is "
+                   "dropped unless every intermediate fits %d bits; the expectations of all exact cases with every routine enabled were "
+                   "accepted by the property's oracle harness/C08/oracle.py (%d cases); failure cases: zero column / row, duplicated or "
+                   "scaled rows, a zero on the diagonal of U or D, a non-positive Cholesky pivot - return value 1; threshold cases: a "
+                   "pivot 2^-e on either side of A_REAL_MIN of each configuration (expected return value depends on the configuration); "
+                   "lndet is exact (0) when every pivot is +-1, otherwise compared with a binary64 reference within 1e-5 x size of the "
+                   "terms + 1e-6 (float) / 1e-9 + 1e-12 (double, long double); precision cases as described above.  Cases by class: %s; "
+                   "dropped for inexactness / unstable comparisons: %s" % (BITS, stats.get("checked", 0),
+                                                                        {k: v for k, v in stats.items() if k != "checked"}, dropped))
+
+
+GENERATORS.update({"C08": gen_C08})
